@@ -111,6 +111,78 @@ def run(ck):
     if mism and not ck.violations:
         ck.unexplained("broken-correspondence", {"mismatches": mism[:2]}, what="Coq reference optimiser and its python twin disagree")
     dist["space_sizes"] = {"min": min(dist["space_sizes"]), "max": max(dist["space_sizes"]), "mean": sum(dist["space_sizes"]) / len(dist["space_sizes"])}
+    # fused witnesses: concrete fused mappings of a 2-matmul chain, evaluated by the real model, must not beat the mapper
+    import join_ref as JR
+    from accelforge.mapper.FFM.main import map_workload_to_arch
+    frng = ck.rng("fused")
+    fd = {"specs": 0, "family_members": 0, "valid_members": 0, "family_reaches_mapper_optimum": 0, "mapper_errors": 0}
+    for k in range(ck.n(6, 40)):
+        p = JR.gen_spec(frng, max_einsums=2, allow_three=False)
+        p.update(n=2, ns=p["ns"][:3], long_lived=False, max_fused_loops=None, max_fused_loops_per_rank_variable=1)
+        if k % 2 == 0:
+            # a row of T1 does not fit next to anything else: two fused loops needed
+            p.update(M=frng.choice([4, 4, 6]), glb=p["bpv"] * frng.choice([3, 3, 4]), mme=frng.choice([10, 100]), gthr="inf", mthr="inf")
+            p["ns"] = [frng.choice([2, 4]), frng.choice([4, 4, 6]), frng.choice([2, 4])]
+        fam = JR.fused_family(frng, p, cap=ck.n(64, 120))
+        ok, rej = JR.evaluate_family(af, evaluate_mapping, p, d, fam)
+        fd["specs"] += 1
+        fd["family_members"] += len(fam)
+        fd["valid_members"] += len(ok)
+        if not ok:
+            continue
+        for mname, idx in (("ENERGY", 2), ("LATENCY", 3)) if k % 2 == 0 else (("ENERGY", 2),):
+            wit = min(ok, key=lambda x: x[idx])
+            ck.case(json.dumps([p, mname], sort_keys=True, default=str), nontrivial=len(ok) >= 2,
+                    sample={"params": {q: p[q] for q in ("M", "ns", "glb", "mme")}, "metric": mname, "valid_family_members": len(ok), "best_member": wit[0], "its_value": wit[idx]})
+            try:
+                cwd = os.getcwd()
+                os.chdir(d)
+                try:
+                    res = map_workload_to_arch(JR.load_spec(af, p, d, af.Metrics[mname]), print_progress=False)
+                finally:
+                    os.chdir(cwd)
+                got = min(float(x) for x in res.data["Total<SEP>" + mname.lower()])
+            except Exception as ex:  # noqa
+                fd["mapper_errors"] += 1
+                ck.failing_input({"params": p, "metric": mname, "mapper_error": f"{type(ex).__name__}: {str(ex)[:300]}", "valid_mapping": wit[1], "its_value": wit[idx],
+                                  "arch_yaml": JR.yaml_text(p)[0], "workload_yaml": JR.yaml_text(p)[1]}, what=f"the mapper raised on a 2-Einsum chain although a valid fused mapping exists ({wit[0]})")
+                continue
+            fd["family_reaches_mapper_optimum"] += abs(got - wit[idx]) <= 1e-6 * max(1.0, abs(got))
+            if got > wit[idx] * (1 + 1e-6) + 1e-9:
+                ck.failing_input({"params": p, "metric": mname, "mapper_best": got, "better_mapping": wit[1], "better_mapping_value": wit[idx], "better_mapping_desc": wit[0],
+                                  "arch_yaml": JR.yaml_text(p)[0], "workload_yaml": JR.yaml_text(p)[1]},
+                                 what=f"a valid fused mapping ({wit[0]}) evaluated by the real model is strictly better ({mname}: {wit[idx]} < {got}) than what the mapper returns")
+    dist["fused_witness_stream"] = fd
+    # spatial array with a loop-bound constraint: if the mapper raises, look for a valid witness (the mapping of the unconstrained
+    # run, when it happens to satisfy the constraint)
+    import c03
+    import random as _random
+    crng = ck.rng("constraints")
+    cs = {"specs": 0, "mapper_raised": 0, "raised_with_valid_witness": 0}
+    for k in range(ck.n(6, 40)):
+        state = crng.getstate()
+        c = c03.constraint_case(af, d, crng, k)
+        cs["specs"] += 1
+        ck.case("constraint:" + c["key"], nontrivial=True)
+        if c["res"] is not None:
+            continue
+        cs["mapper_raised"] += 1
+        r2 = _random.Random()
+        r2.setstate(state)
+        relaxed = c03.constraint_case(af, d, r2, k, override=(">=", 1))
+        if relaxed["res"] is None:
+            continue
+        for j in range(len(relaxed["res"].data)):
+            if not c03.check_constrained(relaxed["res"].mapping(j), {"m": c["M"], "n0": c["KN"], "n1": c["KN"]}, c["fanout"], c["rv"], c["op"], c["val"]):
+                cs["raised_with_valid_witness"] += 1
+                ck.failing_input({"arch_yaml": c["arch"], "workload": "examples/workloads/basic/matmuls.yaml", "jinja": {"N_EINSUMS": 1, "M": c["M"], "KN": c["KN"]},
+                                  "mapper_error": c["err"], "constraint": f"{c['rv']} {c['op']} {c['val']}",
+                                  "valid_mapping": [getattr(n, "compact_str", lambda: str(n))() for n in next(c03.tree_paths(relaxed["res"].mapping(j)), [])]},
+                                 finding_id="F14" if "free_symbols" in (c["err"] or "") else None,
+                                 what=f"the mapper raised ({c['err'][:80]}) on a spatial-array spec with loop bound {c['rv']} {c['op']} {c['val']} although a valid mapping exists "
+                                      f"(the optimum of the unconstrained spec satisfies the constraint)")
+                break
+    dist["constraint_stream"] = cs
     return ck.finish(
         rule="random single-Einsum specs (2-3 rank variables with bounds 2-4, 2-3 tensors, 2-3 memory levels with random keep / may_keep sets, sizes, energies, throughputs, leak, "
              "bits-per-value/-per-action overrides, skip flags); the real map_workload_to_arch is run with ENERGY, LATENCY and ENERGY_DELAY_PRODUCT and its best objective compared with the "
